@@ -380,9 +380,10 @@ HandlerLocked(x) ==
           IN FwdNext([x1 EXCEPT !.fq = evs])
 
 (* ------------------------------------------------------------------ *)
-Enabled(x, t) ==
+EnabledW(x, t) ==
   LET pc == x.th[t].pc IN
-  CASE pc \in {"begin", "ready", "set", "pw_ret", "swap_top", "swap", "notify", "fwding"} -> TRUE
+  CASE pc = "ready" -> TRUE
+    [] pc \in {"begin", "set", "pw_ret", "swap_top", "swap", "notify", "fwding"} -> TRUE
     [] pc = "lock_dl" \/ pc = "exit_dl" \/ pc = "take_dl" -> MFree(x, "DL")
     [] pc = "lock_ch" -> MFree(x, "CH")
     [] pc = "lock_q" -> MFree(x, "Q")
@@ -390,6 +391,13 @@ Enabled(x, t) ==
     [] pc = "cvwait" -> t \in x.cvn /\ MFree(x, "Q")
     [] pc = "join" -> \A u \in Threads : x.th[u].pc = "done"
     [] OTHER -> FALSE
+
+\* the event loop's poll is a blocking wait for the poll-waker; it times out
+\* (and finds nothing) only when no other thread can make a step
+Enabled(x, t) ==
+  IF t = 0 /\ x.th[0].pc = "ready" /\ x.th[0].ip <= Len(MainScript) /\ MainScript[x.th[0].ip][1] = "poll"
+  THEN x.notified \/ \A u \in Threads : ~EnabledW(x, u)
+  ELSE EnabledW(x, t)
 
 Do(x, t) ==
   LET pc == x.th[t].pc IN
